@@ -195,6 +195,11 @@ func checkC13(c *SchedCase) (o *Outcome, overlap int, nested int) {
 			}
 		}
 		pollute(fixtures, c.Junk, c.NJunk)
+		if c.Engine == "api" || c.Engine == "reentrant" {
+			// the interleaved instances (not the solo references above) get their options from one shared slice per configuration
+			fx.ShareOpts = true
+			defer func() { fx.ShareOpts = false }()
+		}
 		insts := make([]*inst, len(c.Insts))
 		for i, s := range c.Insts {
 			insts[i] = newInst(s, files[i])
@@ -308,8 +313,17 @@ func genSchedCase(t *rapid.T, engine string) *SchedCase {
 	cfg.gen.MaxList = 3
 	c := &SchedCase{Engine: engine}
 	n := rapid.IntRange(2, 5).Draw(t, "instances")
+	// in a third of the cases all instances use one configuration (fixture, page size, codec): writers opened from the same options
+	twin := rapid.IntRange(0, 2).Draw(t, "sameConfig") == 0
 	for i := 0; i < n; i++ {
-		s := InstSpec{W: genWorkload(t, cfg)}
+		cfgi := cfg
+		if twin && i > 0 {
+			cfgi.fixtures = []string{c.Insts[0].W.Fixture}
+		}
+		s := InstSpec{W: genWorkload(t, cfgi)}
+		if twin && i > 0 {
+			s.W.PageSize, s.W.Codec = c.Insts[0].W.PageSize, c.Insts[0].W.Codec
+		}
 		if i > 0 || engine != "reentrant" {
 			s.Reader = rapid.IntRange(0, 3).Draw(t, "isReader") == 0
 		}
